@@ -170,10 +170,40 @@ def program(spec: EnumSpec, pname, tier, cap, ladder=False):
 specs_cache = {}
 
 
+REPO_TEST_SRC = """pub fn tv_test_default() -> u8 { 1 }
+pub fn tv_string_test() -> String { String::from("This is a string test") }
+pub fn tv_to_white() -> String { String::from("white-test") }
+"""
+
+
+def repo_test_specs():
+    """enums and literal expectations of strum_tests/tests/from_str.rs (names prefixed Tv to avoid clashes)"""
+    color = EnumSpec("TvColor", [
+        U("Red"), U("Blue", fields=[Field("usize", name="hue")], named=True), U("Yellow", serialize=["y", "yellow"]),
+        U("Green", fields=[Field("String")], default=True), U("Purple", to_string="purp"),
+        U("Black", serialize=["blk", "Black"], aci=True, aci_bare=True),
+        U("Pink", fields=[Field("u8", name="test_no_default", default_with="tv_test_default"), Field("String", name="string_test", default_with="tv_string_test")], named=True),
+        U("White", fields=[Field("String")], default_with="tv_to_white")])
+    week = EnumSpec("TvWeek", [U(d) for d in ("Sunday", "Monday", "Tuesday", "Wednesday", "Thursday", "Friday", "Saturday")])
+    ci = EnumSpec("TvCaseInsensitiveEnum", [U("NoAttr"), U("NoCaseInsensitive", aci=False), U("CaseInsensitive", aci=True)], aci=True)
+    bright = EnumSpec("TvBrightness", [U("DarkBlack"), U("Dim", fields=[Field("usize", name="glow")], named=True), U("BrightWhite", serialize=["Bright"])],
+                      serialize_all="snake_case")
+    fns_ = ["tv_test_default", "tv_string_test", "tv_to_white"]
+    return [
+        (color, [("Red", "Red"), ("Blue", "Blue"), ("y", "Yellow"), ("yellow", "Yellow"), ("purp", "Purple"), ("not found", ("default", "Green")),
+                 ("BLK", "Black"), ("bLaCk", "Black"), ("Pink", "Pink"), ("White", "White")], fns_),
+        (week, [("Humpday", None), ("Sunday", "Sunday"), ("Monday", "Monday"), ("Saturday", "Saturday")], []),
+        (ci, [("noattr", "NoAttr"), ("NoCaseInsensitive", "NoCaseInsensitive"), ("nocaseinsensitive", None), ("CaseInsensitive", "CaseInsensitive"),
+              ("caseinsensitive", "CaseInsensitive")], []),
+        (bright, [("dark_black", "DarkBlack"), ("dim", "Dim"), ("Bright", "BrightWhite")], []),
+    ]
+
+
 def e2(run, programs, tier, seed, known):
     import e2str
     specs = [s for s in specs_cache.get((tier, seed), []) if not s.generics]      # generic / lifetime enums: E1 only
-    return e2str.run_e2(run, programs, specs, HELPERS, ["dw_seven", "dw_word", "dw_flag"], lambda sp: None, known)
+    return e2str.run_e2(run, programs, specs, HELPERS, ["dw_seven", "dw_word", "dw_flag"], lambda sp: None, known,
+                        validation=(REPO_TEST_SRC, repo_test_specs()))
 
 
 def build(tier, seed):
